@@ -14,6 +14,10 @@ func TestMain(m *testing.M) { hx.Main(m, "C18") }
 // TestProp: random environment programs, both builders.
 func TestProp(t *testing.T) { hx.Check(t, "env-map", Gen, Exec) }
 
+// TestPropReplay: delimiter replay (two builds; fences read from the first script are replayed
+// inside the values of the second), both builders.
+func TestPropReplay(t *testing.T) { hx.Check(t, "delimiter-replay", GenReplay, ExecReplay) }
+
 const batchSize = 40
 
 // TestEnum: every value of length <= 3 (quick) / <= 4 (thorough) over Alphabet, batched 40
@@ -110,7 +114,8 @@ func TestEnum(t *testing.T) {
 
 func TestReplay(t *testing.T) {
 	ex := hx.Exec(Exec)
-	hx.Replay(t, map[string]func(json.RawMessage) (hx.Verdict, error){"env-map": ex, "enum-values": ex, "enum-names": ex, "": ex})
+	hx.Replay(t, map[string]func(json.RawMessage) (hx.Verdict, error){"env-map": ex, "enum-values": ex, "enum-names": ex, "": ex,
+		"delimiter-replay": hx.Exec(ExecReplay)})
 }
 
 // TestBytesRoundTrip: the case-file encoding of byte strings is lossless (harness self-test).
